@@ -147,3 +147,35 @@ func VerifC11c_Revisit() {
 	verifAssert(verifGet(&returned) == 2, "delivering an event returns whether or not the catch events have been reached")
 	verifAssert(verifGet(h1) == 2, "a catch event that is reached again listens again and continues once per matching event")
 }
+
+// C11.d / C06: a token listening at a catch event is withdrawn (what an event-based gateway does to the losing
+// alternatives: the flow's termination channel yields true and the flow goroutine exits while the node still holds its
+// response channel); the event the withdrawn token was waiting for is delivered afterwards - the delivery returns and has
+// no effect.
+func VerifC11d_WithdrawnListener() {
+	inst, h1, _ := verifC11Inst()
+	if inst == nil {
+		return
+	}
+	p := inst.proc
+	withdraw := make(chan bool, 1)
+	fl := newFlow(inst.defs, inst.nodeAt("c1"), p.subTracer, p.flowNodeMapping, &p.flowWaitGroup, p.idGenerator, nil, p.locator)
+	f0 := "f0"
+	fl.sequenceFlowId = &f0
+	fl.terminate = func(*string) chan bool { return withdraw }
+	fl.Start(inst.ctx)
+	verifQuiesce() // parked: listening at c1 and watching its termination channel
+	withdraw <- true
+	verifQuiesce() // the token is gone
+	var returned int64
+	go func() {
+		inst.proc.ConsumeEvent(event.NewSignalEvent("sig1"))
+		verifAdd(&returned, 1)
+		inst.proc.ConsumeEvent(event.NewSignalEvent("sig1"))
+		verifAdd(&returned, 1)
+	}()
+	verifQuiesce()
+	verifReach("quiescent")
+	verifAssert(verifGet(&returned) == 2, "delivering an event returns whether or not the catch events have been reached")
+	verifAssert(verifGet(h1) == 0, "an event for a withdrawn listener has no effect")
+}
